@@ -168,6 +168,20 @@ class GatherGen:
             col = r.choice(self.cols)
             for reg in regs: self.s.emit("OpUnregister", reg, col["slot"])
             self.gathers(regs)
+            if r.random() < 0.6:
+                # the released name stays bound to its help / label names: a newcomer of the same name with other
+                # dimensions must still be refused (by every registry alike), the old collector may come back
+                t2 = dict(col["tmpl"])
+                if r.random() < 0.5: t2["help"] = t2["help"] + "?"
+                else: t2["cn"] = list(t2["cn"]) + ["late"]
+                late = self.new_collector(t2)
+                self.add_children(late, 1, 2)
+                for t in ([late["slot"]] if late["form"] == "plain" else late["children"]): self.update(t, late["ty"], late["nk"])
+                back = r.random() < 0.5
+                for reg in regs:
+                    self.s.emit("OpRegister", reg, late["slot"])
+                    if back: self.s.emit("OpRegister", reg, col["slot"])
+                self.gathers(regs)
         kinds = {}
         for col in self.cols:
             fq = "_".join(x for x in (col["tmpl"]["ns"], col["tmpl"]["sub"], col["tmpl"]["name"]) if x)
